@@ -35,34 +35,43 @@ S(str) == str   \* names are plain TLA+ strings
 
 -----------------------------------------------------------------------------
 (* Static scoping: Local if declared so far in the current function, Closure if  *)
-(* declared so far in the immediately enclosing function, else global.           *)
+(* declared so far in the immediately enclosing function, else global.  A scope   *)
+(* is the sequence of the function's names in order of declaration (parameters    *)
+(* first): the position of a name is its slot in the activation frame, the length *)
+(* of the scope after the body is the number of slots of the function.            *)
 RECURSIVE Res(_, _), ResSeq(_, _)
-\* returns <<node', scopes'>>; scopes: Seq of sets of names, <<>> at top level
+\* returns <<node', scopes'>>; scopes: Seq of Seq of names, <<>> at top level
 ResSeq(ns, sc) ==
   IF Len(ns) = 0 THEN << <<>>, sc >>
   ELSE LET h == Res(ns[1], sc)
            t == ResSeq(SubSeq(ns, 2, Len(ns)), h[2])
        IN << <<h[1]>> \o t[1], t[2] >>
-Declare(nm, sc) == IF Len(sc) = 0 THEN sc ELSE [sc EXCEPT ![Len(sc)] = @ \cup {nm}]
+InScope(nm, names) == \E i \in 1..Len(names) : names[i] = nm
+SlotOf(nm, names) == (CHOOSE i \in 1..Len(names) : names[i] = nm) - 1
+Declare(nm, sc) == IF Len(sc) = 0 \/ InScope(nm, sc[Len(sc)]) THEN sc ELSE [sc EXCEPT ![Len(sc)] = Append(@, nm)]
 Scope(nm, sc) ==
-  IF Len(sc) > 0 /\ nm \in sc[Len(sc)] THEN "l"
-  ELSE IF Len(sc) > 1 /\ nm \in sc[Len(sc) - 1] THEN "c"
+  IF Len(sc) > 0 /\ InScope(nm, sc[Len(sc)]) THEN "l"
+  ELSE IF Len(sc) > 1 /\ InScope(nm, sc[Len(sc) - 1]) THEN "c"
   ELSE "g"
-Target(nm, sc) == [t |-> "name", n |-> nm, s |-> IF Len(sc) = 0 THEN "g" ELSE "l"]
+NameNode(nm, sc) == LET k == Scope(nm, sc) IN
+  [t |-> "name", n |-> nm, s |-> k, ix |-> IF k = "l" THEN SlotOf(nm, sc[Len(sc)]) ELSE IF k = "c" THEN SlotOf(nm, sc[Len(sc) - 1]) ELSE -1]
+\* the target of an assignment or a loop variable, after it has been declared
+Target(nm, sc) == IF Len(sc) = 0 THEN [t |-> "name", n |-> nm, s |-> "g", ix |-> -1]
+                  ELSE [t |-> "name", n |-> nm, s |-> "l", ix |-> SlotOf(nm, sc[Len(sc)])]
 Res(n, sc) ==
   CASE n.t \in {"int", "float", "bool", "str", "bigint"} -> <<n, sc>>
-    [] n.t = "name" -> << [t |-> "name", n |-> n.n, s |-> Scope(n.n, sc)], sc >>
+    [] n.t = "name" -> << NameNode(n.n, sc), sc >>
     [] n.t = "list" -> LET r == ResSeq(n.e, sc) IN << [t |-> "list", e |-> r[1]], r[2] >>
     [] n.t = "bin" -> LET l == Res(n.l, sc) r == Res(n.r, l[2]) IN << [t |-> "bin", op |-> n.op, l |-> l[1], r |-> r[1]], r[2] >>
     [] n.t = "un" -> LET x == Res(n.x, sc) IN << [t |-> "un", op |-> n.op, x |-> x[1]], x[2] >>
     [] n.t = "ix1" -> LET a == Res(n.a, sc) i == Res(n.i, a[2]) IN << [t |-> "ix1", a |-> a[1], i |-> i[1]], i[2] >>
     [] n.t = "ix2" -> LET a == Res(n.a, sc) i == Res(n.i, a[2]) j == Res(n.j, i[2]) IN
                       << [t |-> "ix2", a |-> a[1], i |-> i[1], j |-> j[1]], j[2] >>
-    [] n.t = "fn" -> LET inner == Append(sc, {n.params[i] : i \in 1..Len(n.params)})
+    [] n.t = "fn" -> LET inner == Append(sc, n.params)
                          b == Res(n.body, inner) IN
-                     << [t |-> "fn", params |-> n.params, body |-> b[1]], sc >>
+                     << [t |-> "fn", params |-> n.params, body |-> b[1], nl |-> Len(b[2][Len(b[2])])], sc >>
     [] n.t = "call" -> LET a == ResSeq(n.args, sc) IN
-                       << [t |-> "call", name |-> [t |-> "name", n |-> n.name.n, s |-> Scope(n.name.n, sc)], args |-> a[1]], a[2] >>
+                       << [t |-> "call", name |-> NameNode(n.name.n, sc), args |-> a[1]], a[2] >>
     [] n.t = "assign" -> LET e == Res(n.e, sc) sc2 == Declare(n.tgt.n, e[2]) IN
                          << [t |-> "assign", tgt |-> Target(n.tgt.n, sc2), e |-> e[1]], sc2 >>
     [] n.t = "if" -> LET c == Res(n.c, sc) th == Res(n.th, c[2]) IN << [t |-> "if", c |-> c[1], th |-> th[1]], th[2] >>
